@@ -11,8 +11,8 @@ from ..common import AXES, GRIDS, NDIM, SIDES, bc_shape, make_grid, mk_face
 from ..result import Result
 
 ID = "C02"
-TOLERANCES = {"acceptance": "error at rounding level (<=1e-11 relative), or average observed order over the ladder >= p0-0.45, or order on the "
-                            "finest pair >= p0-0.25; otherwise escalate (finer ladder) and decide there",
+TOLERANCES = {"acceptance": "error at rounding level (<=1e-11 relative), or average observed order over the ladder >= p0-0.45 (3-D: p0-0.6), or order on "
+                            "the finest pair >= p0-0.25 (3-D: p0-0.4); otherwise escalate (finer ladder) and decide there",
               "p0": "2 (diffusion, central advection, sources, dt ~ h^2), 1 (upwind)"}
 RULE = ("Generated: grid class (9) x spacing per axis {uniform, smooth grading x=a+L(s+g s(1-s)), |g|<=0.45} x radial origin {0, offset} x "
         "boundary kind per side {Dirichlet, Neumann, Robin} x term set {diffusion, +central, +upwind, +linear source, +transient (1-D/2-D)} x "
@@ -36,20 +36,21 @@ def _case(draw, tier):
     nd = len(kinds)
     axis = kinds[0] == 'r' and draw(st.booleans())
     dom = []
+    small = nd == 3      # 3-D ladders stop at 24 (32) cells per axis: keep the problem resolved there (smaller domains, milder grading)
     for k in kinds:
         if k == 'x':
             lo = draw(st.sampled_from([0.0, -1.0, 0.5]))
-            L = draw(st.sampled_from([1.0, 2.0, 0.7]))
+            L = draw(st.sampled_from([1.0, 0.7] if small else [1.0, 2.0, 0.7]))
         elif k == 'r':
-            lo = 0.0 if axis else draw(st.sampled_from([0.3, 1.0, 2.0]))
-            L = draw(st.sampled_from([1.0, 1.5]))
+            lo = 0.0 if axis else draw(st.sampled_from([0.3, 1.0] if small else [0.3, 1.0, 2.0]))
+            L = draw(st.sampled_from([1.0] if small else [1.0, 1.5]))
         elif k in ('thc', 'ph'):
             lo = draw(st.sampled_from([0.0, 0.4]))
-            L = draw(st.sampled_from([1.0, 2.0, 4.0]))
+            L = draw(st.sampled_from([1.0] if small else [1.0, 2.0, 4.0]))
         else:
             lo = draw(st.sampled_from([0.4, 0.8]))
-            L = draw(st.sampled_from([1.0, 1.6]))
-        dom.append([lo, lo + L, draw(st.sampled_from([0.0, 0.0, 0.3, -0.45, 0.45]))])
+            L = draw(st.sampled_from([1.0] if small else [1.0, 1.6]))
+        dom.append([lo, lo + L, draw(st.sampled_from([0.0, 0.0, 0.3, -0.3] if small else [0.0, 0.0, 0.3, -0.45, 0.45]))])
     transient = nd <= 2 and draw(st.integers(0, 3)) == 0
     scheme = draw(st.sampled_from(['none', 'central', 'central', 'upwind']))
     bc = []
@@ -74,7 +75,7 @@ def _case(draw, tier):
                lam=draw(st.sampled_from([0.5, 2.0])) if transient else 0.0, al=draw(st.sampled_from([1.0, 2.5])) if transient else 0.0, t=0.0)
     for i in range(3):
         par[f'a{i + 1}'] = draw(st.sampled_from([0.2, 0.4, 0.6, -0.5]))
-        par[f'w{i + 1}'] = draw(st.sampled_from([1.0, 1.7, 2.5, 3.1]))
+        par[f'w{i + 1}'] = draw(st.sampled_from([1.0, 1.7] if small else [1.0, 1.7, 2.5, 3.1]))
         par[f'p{i + 1}'] = draw(st.sampled_from([0.0, 0.5, 1.3, 2.2]))
         par[f'v{i + 1}'] = draw(st.sampled_from([0.0, 0.5, -0.7, 1.0])) if scheme != 'none' else 0.0
     return dict(name=name, axis=axis, dom=dom, transient=transient, scheme=scheme, bc=bc, par=par, T=0.2)
@@ -189,14 +190,18 @@ def solve_level(case, n):
     return float(np.abs(err).max()), float(np.sqrt((V * err ** 2).sum() / V.sum())), float(np.abs(exact).max())
 
 
-def _decide(errs, p0, scale):
+MARGIN = {1: (0.45, 0.25), 2: (0.45, 0.25), 3: (0.6, 0.4)}    # (average, finest pair); 3-D ladders are coarser (<= 32 cells per axis)
+
+
+def _decide(errs, p0, scale, nd=1):
     if not all(np.isfinite(errs)):
         return 'nonfinite', []
     if errs[-1] <= 1e-11 * max(scale, 1.0):
         return 'pass', []
     orders = [math.log2(errs[i] / errs[i + 1]) if errs[i + 1] > 0 and errs[i] > 0 else float('inf') for i in range(len(errs) - 1)]
     avg = math.log2(errs[0] / errs[-1]) / (len(errs) - 1) if errs[-1] > 0 and errs[0] > 0 else float('inf')
-    if avg >= p0 - 0.45 or orders[-1] >= p0 - 0.25:
+    ma, ml = MARGIN[nd]
+    if avg >= p0 - ma or orders[-1] >= p0 - ml:
         return 'pass', orders
     return 'undecided', orders
 
@@ -211,7 +216,7 @@ def check(case):
         e, rms, sc = solve_level(case, n)
         errs.append(e)
         scale = max(scale, sc)
-    verdict, orders = _decide(errs, p0, scale)
+    verdict, orders = _decide(errs, p0, scale, nd)
     esc = 0
     for n in ESCALATE[nd]:
         if verdict != 'undecided':
@@ -220,12 +225,12 @@ def check(case):
         errs.append(e)
         ladder.append(n)
         esc += 1
-        verdict, orders = _decide(errs[-3:] if len(errs) > 3 else errs, p0, scale)
+        verdict, orders = _decide(errs[-3:] if len(errs) > 3 else errs, p0, scale, nd)
     if nd == 3 and verdict == 'undecided':
         # one more ladder for 3-D: 8/16/32
         errs2 = [solve_level(case, n)[0] for n in (8, 16, 32)]
         esc += 1
-        verdict, orders = _decide(errs2, p0, scale)
+        verdict, orders = _decide(errs2, p0, scale, nd)
         errs, ladder = errs2, [8, 16, 32]
     res.units = len(errs)
     res._escalated = esc
